@@ -116,10 +116,12 @@ func isValid(class string) bool {
 }
 
 type rec struct {
-	kind   string // "connected" | "event" | "error"
-	status *types.Status
-	snap   map[string]any
-	socks  int
+	err     error  // error callbacks: the error object as delivered
+	errSnap string // every byte reachable from it, at delivery
+	kind    string // "connected" | "event" | "error"
+	status  *types.Status
+	snap    map[string]any
+	socks   int
 }
 
 type listener struct {
@@ -136,7 +138,7 @@ func (l *listener) OnEvent(s *types.Status) {
 	l.calls = append(l.calls, rec{kind: "event", status: s, snap: ops.StatusFields(s)})
 }
 func (l *listener) OnError(err error) bool {
-	l.calls = append(l.calls, rec{kind: "error"})
+	l.calls = append(l.calls, rec{kind: "error", err: err, errSnap: reachableBytes(err)})
 	if l.choose {
 		return vs.Choose(2, "OnError-returns") == 0
 	}
@@ -264,6 +266,16 @@ func scenario(name string, seq []string, stopAfter int, senders int, bound int, 
 					if v := spec.Judge(ex, spec.Observed{Fields: ev.snap}); v.Class != "" {
 						add("event-content-or-order", fmt.Sprintf("cycle %d: event %d is not the decoding of received datagram %d: %s", c, i, i, v.Detail))
 					}
+					_ = i
+				}
+				for i, call := range r.l.calls {
+					if call.kind == "error" && call.err != nil {
+						if now := reachableBytes(call.err); now != call.errSnap {
+							add("error-changed-afterwards", fmt.Sprintf("cycle %d: the error object handed to OnError (callback %d, %T) reaches bytes that changed after delivery: %s -> %s", c, i, call.err, call.errSnap, now))
+						}
+					}
+				}
+				for i, ev := range events {
 					if now := ops.StatusFields(ev.status); !reflect.DeepEqual(now, ev.snap) {
 						add("event-changed-afterwards", fmt.Sprintf("cycle %d: event %d changed after delivery", c, i))
 					}
@@ -784,6 +796,8 @@ func main() {
 		}
 		scenarios = append(scenarios, doubleStopScenario(how, b))
 	}
+	// the stop signal raised from inside OnEvent
+	scenarios = append(scenarios, selfStopScenario(false), selfStopScenario(true))
 	// Listener values of every dynamic kind
 	for _, k := range []string{"pointer", "struct-value", "map", "func", "int"} {
 		scenarios = append(scenarios, listenerKindScenario(k))
@@ -820,4 +834,109 @@ func main() {
 	r.Assume("a datagram counts as received when a read on the listen socket returned it (datagrams still queued when the socket is closed were never received)")
 	r.Assume("calendar-invalid (but BCD) timestamps are outside the alphabet: the library documents decoding them as 'no value'")
 	r.Finish()
+}
+
+// reachableBytes renders every byte slice / array / string reachable from v (through pointers,
+// interfaces, struct fields exported or not, error wrapping) - what an application that keeps the
+// value would still be looking at later.
+func reachableBytes(v any) string {
+	var b strings.Builder
+	seen := map[uintptr]bool{}
+	var walk func(x reflect.Value, depth int)
+	walk = func(x reflect.Value, depth int) {
+		if depth > 8 || !x.IsValid() {
+			return
+		}
+		switch x.Kind() {
+		case reflect.Ptr, reflect.Interface:
+			if x.IsNil() {
+				return
+			}
+			if x.Kind() == reflect.Ptr {
+				if seen[x.Pointer()] {
+					return
+				}
+				seen[x.Pointer()] = true
+			}
+			walk(x.Elem(), depth+1)
+		case reflect.Struct:
+			for i := 0; i < x.NumField(); i++ {
+				walk(x.Field(i), depth+1)
+			}
+		case reflect.Slice, reflect.Array:
+			if x.Kind() == reflect.Slice && x.IsNil() {
+				return
+			}
+			if x.Type().Elem().Kind() == reflect.Uint8 {
+				b.WriteString("[")
+				for i := 0; i < x.Len(); i++ {
+					fmt.Fprintf(&b, "%02x", x.Index(i).Uint())
+				}
+				b.WriteString("]")
+				return
+			}
+			for i := 0; i < x.Len() && i < 64; i++ {
+				walk(x.Index(i), depth+1)
+			}
+		case reflect.String:
+			fmt.Fprintf(&b, "%q", x.String())
+		}
+	}
+	walk(reflect.ValueOf(v), 0)
+	return b.String()
+}
+
+// selfStopScenario: the application stops the listener from inside its own event callback - OnEvent
+// sends on the (unbuffered) stop channel when it sees the first event. The listener stops, Listen
+// returns nil, the address is free.
+type selfStopListener struct {
+	listener
+	q    chan os.Signal
+	done bool
+}
+
+func (l *selfStopListener) OnEvent(s *types.Status) {
+	l.listener.OnEvent(s)
+	if !l.done {
+		l.done = true
+		vs.Send(l.q, os.Signal(os.Interrupt))
+	}
+}
+
+func selfStopScenario(buffered bool) e1.Scenario {
+	var l1 *selfStopListener
+	var ret error
+	var done bool
+	body := func() {
+		n := 0
+		if buffered {
+			n = 1
+		}
+		l1 = &selfStopListener{q: make(chan os.Signal, n)}
+		done, ret = false, nil
+		c1 := l1
+		vs.Net().Env = &farm.Farm{}
+		u := uhppote.NewUHPPOTE(types.BindAddr{}, types.BroadcastAddr{}, types.ListenAddrFrom(netip.MustParseAddr("0.0.0.0"), lport), T, nil, false)
+		for k := 0; k < 2; k++ {
+			d := datagram("valid", k)
+			vs.After(time.Duration(k+1)*T/10, func() { vs.Net().DeliverUDP("192.168.1.100:60000", fmt.Sprintf("192.168.1.2:%d", lport), d) })
+		}
+		ret = u.Listen(c1, c1.q)
+		done = true
+	}
+	check := func(e *vs.Exec) (string, []e1.Viol) {
+		viols := e1.Generic(e)
+		if e.Abort != "" {
+			return e.Abort, viols
+		}
+		what := fmt.Sprintf("OnEvent sends the stop signal itself (buffered channel: %v)", buffered)
+		if !done || ret != nil {
+			viols = append(viols, e1.Viol{Key: "stop-from-callback/listener-did-not-return-nil", What: fmt.Sprintf("returned=%v err=%v (%s)", done, ret, what)})
+		}
+		if open := vs.Net().OpenSockets(); len(open) > 0 {
+			viols = append(viols, e1.Viol{Key: "stop-from-callback/socket-leak", What: fmt.Sprint(open) + " (" + what + ")"})
+		}
+		return fmt.Sprintf("stop-from-callback ret=%v", ret == nil), viols
+	}
+	return e1.Scenario{Name: fmt.Sprintf("stop-from-callback/buffered=%v", buffered), Bound: 1, Body: body, Check: check, Opt: vs.Options{Horizon: 3000}}
 }
